@@ -331,7 +331,7 @@ def _call_oc(mon, case, ref, hyp):
     ins, dl, sub = G.costs_as_given(case)
     kw = dict(eos=case["eos"], include_eos=case["include_eos"], batch_first=case["batch_first"],
               ins_cost=ins, del_cost=dl, sub_cost=sub, padding=case["padding"],
-              exclude_last=case["exclude_last"], warn=False)
+              exclude_last=case["exclude_last"], warn=G.warn_flag(case))
     # zero-size sequence *tensor dimension* (not an empty sequence): with eos set, or with
     # exclude_last on a hypothesis tensor without any column, the library raises; DESIGN 3/C01 limits
     zero_dim = (case["R"] == 0 or case["H"] == 0) and case["eos"] is not None
@@ -464,8 +464,8 @@ def _call_loss(mon, case, logits, ref, hyp):
         warnings.simplefilter("ignore")
         if case["form"] == "module":
             mon.stat("form_module")
-            return mon.lib(name, lambda: LY.travelled(M.HardOptimalCompletionDistillationLoss(**kw), case["R"], case["H"], len(case["ref"]))(logits, ref, hyp, warn=False))
-        return mon.lib(name, lambda: F.hard_optimal_completion_distillation_loss(logits, ref, hyp, warn=False, **kw))
+            return mon.lib(name, lambda: LY.travelled(M.HardOptimalCompletionDistillationLoss(**kw), case["R"], case["H"], len(case["ref"]))(logits, ref, hyp, warn=G.warn_flag(case)))
+        return mon.lib(name, lambda: F.hard_optimal_completion_distillation_loss(logits, ref, hyp, warn=G.warn_flag(case), **kw))
 
 
 def _targets_of(case, n):
